@@ -26,7 +26,7 @@ PAYLOADS = ('internal', 'nested', 'parameter', 'external_file', 'external_http',
 BENIGN = ('benign_empty_subset', 'benign_element_decl', 'benign_none')
 PROLOGS = ('plain', 'bom8', 'utf16', 'latin1', 'pad9k', 'pad17k', 'pad66k', 'subsetpad66k', 'standalone', 'standalone')
 ROLES = ('instance', 'instance_lazy', 'validate', 'main_schema', 'included', 'imported', 'redefined', 'hinted', 'docapi_schema',
-         'schema_from_settings', 'xmldocument_parse', 'ctor_global_maps')
+         'schema_from_settings', 'xmldocument_parse', 'ctor_global_maps', 'cli_schema')
 
 # channel catalogue: (name, kind, seekable, url attribute, base_url class)
 CHANNELS = []
@@ -44,6 +44,9 @@ CHANNELS += [('bytesio', 'bytesio', True, None, None), ('stringio', 'stringio', 
              # remote URLs WITHOUT a path: their base URL has no network location left ('http:')
              ('http-nopath', 'http_nopath', False, None, None), ('http-query', 'http_query', False, None, None),
              ('opaque-url', 'http_opaque', False, None, None),
+             # an object that only has read() and close(): no complete file object, so no source the library takes -
+             # refused as a source or defused, never parsed past the pre-parse
+             ('reader-only', 'reader_only', False, None, None),
              ('raw-noseek-base-remote', 'raw', False, None, 'remote'),
              ('buffered-noseek-base-remote', 'buffered', False, None, 'remote')]
 
@@ -171,8 +174,14 @@ class C13(Check):
             chan = rng.choice([x for x in CHANNELS if x[0] in ('path', 'fileurl', 'http', 'http_opener')])
         if role == 'hinted':
             chan = rng.choice([x for x in CHANNELS if x[0] in ('path', 'fileurl', 'http')])
+        if role == 'cli_schema':
+            # the validate command takes locations only, and knows three modes
+            chan = rng.choice([x for x in CHANNELS if x[0] in ('path', 'fileurl', 'http')])
+            if mode == 'nonlocal':
+                mode = 'always'
         peer = 'constant'
-        if role in ('docapi_schema', 'schema_from_settings') and chan[1] in ('raw', 'buffered', 'textio', 'duck', 'stringio', 'bytesio'):
+        if role in ('docapi_schema', 'schema_from_settings') and chan[1] in ('raw', 'buffered', 'textio', 'duck', 'stringio', 'bytesio',
+                                                                             'reader_only'):
             chan = rng.choice([x for x in CHANNELS if x[0] in ('path', 'fileurl', 'http', 'text-base-None', 'text-base-remote')])
         if chan[1] in ('text', 'stringio', 'textio') and prolog in ('bom8', 'utf16', 'latin1'):
             prolog = 'plain'
@@ -235,7 +244,7 @@ class C13(Check):
             urls = ('file://' + os.path.join(world, 'secret.txt'), 'http://sim.test/secret.txt',
                     'file://' + os.path.join(world, 'ext.dtd'))
             is_schema = role in ('main_schema', 'included', 'imported', 'redefined', 'hinted', 'docapi_schema',
-                                 'schema_from_settings', 'ctor_global_maps')
+                                 'schema_from_settings', 'ctor_global_maps', 'cli_schema')
             tns = 'urn:imp' if role == 'imported' else None
             doc = build_doc(payload, prolog, is_schema, urls, tns)
             benign = build_doc('benign_none', 'plain', is_schema, urls, tns)
@@ -334,8 +343,11 @@ class C13(Check):
         if (kind in ('http', 'http_opener', 'http_nopath', 'http_query', 'http_opaque') or case.get('part_locality') == 'remote') and \
                 case['prolog'] in ('pad66k', 'subsetpad66k') and \
                 (got['exc'] in ('XMLResourceOSError', 'XMLResourceError', 'part-not-loaded') or
-                 (case['role'] == 'hinted' and got['exc'] == 'XMLSchemaValueError')):
+                 (case['role'] == 'hinted' and got['exc'] == 'XMLSchemaValueError') or
+                 (case['role'] == 'cli_schema' and 'not seekable' in (got.get('msg') or ''))):
             return True      # a peer response is a non-seekable buffered stream: same 64 KiB limit
+        if kind == 'reader_only' and got['exc'] == 'XMLSchemaTypeError':
+            return True      # not taken as a source at all: nothing was read
         if got['exc'] not in ('XMLResourceOSError', 'XMLResourceError'):
             return False
         if seekable or kind not in ('raw', 'buffered', 'textio', 'duck'):
@@ -386,6 +398,8 @@ class C13(Check):
                 return make_stream(k, d, plan=plan, seekable=seekable,
                                    faults={'eio_once': transient} if transient is not None else None,
                                    url='http://sim.test/stream.xml' if urlattr else None)
+            if kind == 'reader_only':
+                return ReaderOnly(data)
             if kind in ('path', 'fileurl'):
                 p = os.path.join(world, fname)
                 with open(p, 'wb') as fp:
@@ -439,6 +453,41 @@ class C13(Check):
                 kw = {'opener': opener} if opener is not None else {}
                 schema = xmlschema.XMLSchema(src, global_maps=host.maps, base_url=base_url, defuse=mode, **kw)
                 trees += [s_.root for s_ in schema.maps.iter_schemas() if s_.meta_schema is not None]
+            elif role == 'cli_schema':
+                # the validate command, in process: --defuse applies to the schema named by --schema as it does to
+                # the instances
+                import io
+                import sys
+                import contextlib
+                from xmlschema import cli
+                src = source_for(doc, 'main.xsd', 'http://sim.test/main.xsd')
+                inst = os.path.join(world, 'inst.xml')
+                with open(inst, 'w') as fp:
+                    fp.write('<incel>x</incel>')
+                saved_argv = sys.argv
+                command = cli.validate
+                sys.argv = ['xmlschema-validate', '--defuse=' + mode, '--schema', src, inst]
+                if __import__('zlib').crc32(doc) % 3 == 0:
+                    # the converting command builds the schema once, before it meets the documents
+                    command = cli.xml2json
+                    sys.argv = ['xmlschema-xml2json', '--defuse=' + mode, '--schema', src, '--force', '-o',
+                                os.path.join(world, 'out'), inst]
+                sout, serr = io.StringIO(), io.StringIO()
+                try:
+                    with contextlib.redirect_stdout(sout), contextlib.redirect_stderr(serr):
+                        try:
+                            command()
+                            code = 0
+                        except SystemExit as exc_:
+                            code = exc_.code if isinstance(exc_.code, int) else (0 if exc_.code is None else 1)
+                finally:
+                    sys.argv = saved_argv
+                text = sout.getvalue() + serr.getvalue()
+                if MARK in text or EXT_MARK in text:
+                    out['marker'] = True
+                if code != 0:
+                    out['exc'] = 'XMLResourceForbidden' if 'forbidden' in text.lower() else 'cli-exit-%d' % code
+                    out['msg'] = canon.mask(text)[:300]
             elif role == 'schema_from_settings':
                 # the alternative constructor: stored settings plus keyword overrides (the defuse mode is an override)
                 from xmlschema.settings import SchemaSettings
@@ -566,6 +615,23 @@ class C13(Check):
 def _copy_elem(e):
     import copy
     return copy.deepcopy(e)
+
+
+class ReaderOnly:
+    """The least a caller may think of as a stream: read() and close(), nothing else."""
+    def __init__(self, data):
+        self._data = data
+        self._pos = 0
+
+    def read(self, n=-1):
+        if n is None or n < 0:
+            n = len(self._data) - self._pos
+        chunk = self._data[self._pos:self._pos + n]
+        self._pos += len(chunk)
+        return chunk
+
+    def close(self):
+        pass
 
 
 def chan_class(chan):
